@@ -499,6 +499,12 @@ func (sh *kvShape) ancestorWalk(p *load.Program, fn *ssa.Function, pval ssa.Valu
 	}
 	// the index decreases: i = len-1 … 0 (phi with a decrement)
 	idx := ia.Index
+	// `for r := len(x); r > 0; r-- { x[r-1] }` counts down as well
+	if bo, ok := idx.(*ssa.BinOp); ok && bo.Op == token.SUB {
+		if _, isConst := bo.Y.(*ssa.Const); isConst {
+			idx = bo.X
+		}
+	}
 	if ph, ok := idx.(*ssa.Phi); ok {
 		for _, e := range ph.Edges {
 			if bo, ok := e.(*ssa.BinOp); ok && bo.Op == token.SUB && bo.X == ssa.Value(ph) {
